@@ -138,7 +138,11 @@ func (vp *ViaParam) GetTTL() (int, error) {
 func (vp *ViaParam) String() string {
 	buf := bytes.NewBuffer(make([]byte, 0))
 
-	fmt.Fprintf(buf, "%s/%s/%s %s:%d", vp.ProtocolName, vp.ProtocolVersion, vp.Transport, vp.Host, vp.GetPort())
+	fmt.Fprintf(buf, "%s/%s/%s %s", vp.ProtocolName, vp.ProtocolVersion, vp.Transport, vp.Host)
+	// keep the sent-by as received, a port is only written if there is one
+	if vp.port != 0 {
+		fmt.Fprintf(buf, ":%d", vp.port)
+	}
 	for _, param := range vp.Params {
 		fmt.Fprintf(buf, ";%s", param.String())
 	}
